@@ -17,6 +17,16 @@ mode stall (consumers make exactly `cap` Acquire calls and then stop; then the c
   has returned by itself): exactly `min(cap, M)` acquired; `Run` returns; the sink is closed; acquired + left in the
   sink never exceed `M` (that no more than the channel capacity is left is part of the model's prediction, not of the Spec); a provider whose remaining ammo fit into the channel returns
   by itself (bound reached ⇒ returns promptly) having sent exactly `M`.
+fault plan (round 3; modes drain / ext / tcan; any combination, also together with a cancel): `cfail=1` closing the ammo
+  file fails (for the inline `uris` source: the provider's exported Close function), `cfail=2` the provider has no Close
+  function, `rfail=k` the k-th operation on the ammo file fails with an I/O error (`rsticky=1`: and every later one),
+  `ofail=1` the file cannot be opened.  A fault is none of the two events of the property's last sentence, but what
+  that sentence protects must survive it: whatever fails, `Run` returns (no hang, no spin), the sink is closed (no
+  consumer stays blocked), never more than the bound is delivered and what is delivered is a prefix of the cyclic
+  file; `Run` may report the fault (`fault`; after an I/O error also an error of its own about what the truncated read
+  left it with, `other`) only when one did reach the provider; nil without a cancel still means
+  "exactly M delivered" (an I/O error is not swallowed into a short run); a failing Close (it comes last) does not
+  change the count.  A provider whose constructor hits the fault returns it from the constructor.
 mode engine (real core/engine, `inst` instances, shared `once(shots)` schedule, `shots = 0` = unlimited):
   `Engine.Run` returns nil, exactly `min⁺(M, shots)` shots were made, `Engine.Wait` returns.  `idle=1`: the schedule
   has no token at all — the instances finish at once and the engine cancels the provider wherever it is (with `gate=k`:
@@ -26,6 +36,7 @@ namespace Pandora.Spec.C08
 
 inductive RunClass where
   | nil | canceled | limit | passes | noammo | other | noreturn
+  | fault   -- an injected fault (I/O error of a read / seek / open, failing close) is reported, alone or merged with the run's own error
   deriving DecidableEq, Repr, Inhabited
 
 inductive EndClass where
@@ -34,7 +45,7 @@ inductive EndClass where
 
 def RunClass.name : RunClass → String
   | .nil => "nil" | .canceled => "canceled" | .limit => "limit" | .passes => "passes"
-  | .noammo => "noammo" | .other => "other" | .noreturn => "noreturn"
+  | .noammo => "noammo" | .other => "other" | .noreturn => "noreturn" | .fault => "fault"
 
 def EndClass.name : EndClass → String
   | .closed => "closed" | .blocked => "blocked" | .spinning => "spinning" | .open_ => "open"
@@ -139,6 +150,66 @@ def extJudge (c : Cell) (answersCanceled : Bool) (fired : Bool) (o : Obs) : Stri
   else if !extHolds c answersCanceled fired o then
     s!"fail:count:Run returned nil after a cancel with {o.delivered} delivered, bound not reached"
   else "ok"
+
+/-! ## fault plan (modes drain / ext / tcan) -/
+
+structure Faults where
+  cfail : Nat := 0     -- 1: closing the ammo file fails; 2: the provider has no Close function
+  rfail : Nat := 0     -- != 0: the rfail-th file operation fails
+  rsticky : Bool := false
+  ofail : Bool := false
+  deriving Repr, DecidableEq
+
+def Faults.any (f : Faults) : Bool := f.cfail != 0 || f.rfail != 0 || f.ofail
+
+/-- which of the injected faults were actually returned to the provider -/
+structure Hits where
+  r : Bool := false
+  c : Bool := false
+  o : Bool := false
+  deriving Repr, DecidableEq
+
+def Hits.any (h : Hits) : Bool := h.r || h.c || h.o
+/-- only the close failed: everything the provider had to deliver was delivered before -/
+def Hits.closeOnly (h : Hits) : Bool := h.c && !h.r && !h.o
+
+/-- the clauses for a cell with an injected fault; `fired` = a cancel from outside the consumers happened (ext / tcan) -/
+def faultHolds (c : Cell) (answersCanceled : Bool) (h : Hits) (fired : Bool) (o : Obs) : Bool :=
+  if !h.any then (if fired then extHolds c answersCanceled fired o else holds c o)
+  else
+    decide (o.delivered ≤ want c) && o.cut == decide (0 < c.cap ∧ c.cap ≤ o.delivered) && o.seqOk &&
+    returnsOk o && (o.run == .nil || o.run == .canceled || o.run == .fault || (o.run == .other && (h.r || h.o))) &&
+    (o.run != .canceled || o.cut || fired) && endOk o &&
+    -- nil: the bound was reached (or a cancel stopped a provider that answers it with nil)
+    (o.run != .nil ||
+      (if o.cut || fired then !answersCanceled || expected c.limit c.passes c.n == some o.delivered || (o.cut && bounded c)
+       else o.delivered == want c)) &&
+    -- a failing Close comes last: the count is the one of the cell without the fault
+    (!(h.closeOnly && !fired) || countOk c o) &&
+    spinOk c o
+
+def faultJudge (c : Cell) (answersCanceled : Bool) (h : Hits) (fired : Bool) (o : Obs) : String :=
+  if !h.any then (if fired then extJudge c answersCanceled fired o else judge c o)
+  else if !decide (o.delivered ≤ want c) then s!"fail:count:delivered {o.delivered} after a fault, at most {want c} expected"
+  else if o.cut != decide (0 < c.cap ∧ c.cap ≤ o.delivered) then "fail:driver:cut flag inconsistent"
+  else if !o.seqOk then "fail:order:the acquired ammo are not the entries of the file in cyclic order"
+  else if !returnsOk o then
+    (if o.end_ == .spinning then "fail:spin:Run never returns after an I/O fault, ammo file read in a loop" else "fail:hang:Run never returns after a fault")
+  else if !(o.run == .nil || o.run == .canceled || o.run == .fault || (o.run == .other && (h.r || h.o))) then runErrMsg o
+  else if o.run == .canceled && !(o.cut || fired) then "fail:run-error:Run returned canceled, nobody cancelled"
+  else if !endOk o then "fail:sink-open:Run returned after a fault but consumers stay blocked in Acquire (sink never closed)"
+  else if o.run == .nil && !(o.cut || fired) && o.delivered != want c then
+    s!"fail:swallowed-error:Run returned nil after an I/O fault with {o.delivered} of {want c} delivered"
+  else if h.closeOnly && !fired && !countOk c o then
+    s!"fail:count:delivered {o.delivered}, expected {want c} (only the final Close failed)"
+  else if !spinOk c o then s!"fail:spin:{o.ops} file operations for {o.delivered} ammo of a {c.n}-entry file"
+  else if !faultHolds c answersCanceled h fired o then
+    s!"fail:count:Run returned nil after a cancel with {o.delivered} delivered, bound not reached"
+  else "ok"
+
+/-- a constructor that fails: only with the injected fault it hit -/
+def constructJudge (h : Hits) (cls : String) : String :=
+  if h.any && cls == "fault" then "ok" else s!"fail:construct:{cls}"
 
 /-! ## mode stall -/
 
